@@ -11,13 +11,15 @@ m = {
     "setup_cmd": "bin/setup.sh",
     "hooks": {
         "guard": "verif (Go build tag)",
-        "enable": "bin/build.sh: go1.26.8 test -c -tags verif with /verif/sim and /verif/glue overlaid into the taskctl module (-overlay, -modfile copy of go.mod); binaries run with GODEBUG=asynctimerchan=0",
+        "enable": "bin/build.sh: go1.26.8 test -c -tags verif with /verif/sim and /verif/glue overlaid into the taskctl module (-overlay, -modfile copy of go.mod); binaries run with GODEBUG=asynctimerchan=0. In the same overlay step (simulated build only, /repo untouched) copies of taskctl's own source files are rewritten: sync.Mutex|RWMutex|Once -> channel-based sim/vsync types (durable blocking in the synctest bubble), and in pkg/scheduler `range g.Nodes()` -> `range verifNodes(g.Nodes())` plus a `verifYield(\"sched-visit\", stage)` at the top of those loops (seeded visiting order, mid-pass park points). VERIF_NO_VSYNC=1 disables the rewrite.",
         "baseline_off_cmd": "cd /repo && GOFLAGS=-mod=mod GOPROXY=off GOSUMDB=off go test -vet=off -count=1 -timeout 25m ./...",
         "source_commits": hook_commits,
         "add_only": True,
     },
     "engines": [
-        {"name": "sched", "path": "sim/eng_sched.go", "serves_properties": ["C01", "C02", "C03", "C04", "C12"], "kind_free_text": "real pkg/scheduler inside a testing/synctest bubble against a controlled Runner stub; seeded controller decides completion order, passes, Cancel instants"},
+        {"name": "sched", "path": "sim/eng_sched.go", "serves_properties": ["C01", "C02", "C03", "C04", "C12"], "kind_free_text": "real pkg/scheduler inside a testing/synctest bubble against a controlled Runner stub; seeded controller decides completion order, pass visiting order, mid-pass completions, Cancel instants"},
+        {"name": "integ / fault / cli", "path": "sim/eng_integ.go", "serves_properties": ["C01", "C02", "C03", "C04", "C06", "C07", "C08", "C11", "C12", "C13", "C14", "C19"], "kind_free_text": "real TaskRunner + executor + mvdan/sh interpreter + output decorators (+ real scheduler, config loader, in-process command line) over a simulated process layer (exit status, output chunks, durations, reaction to interrupts) on the fake clock; faults: non-zero exits, command-not-found, stalls, kill delays, timeouts, Cancel/abort at every step, reused write buffers"},
+        {"name": "watch", "path": "sim/eng_watch.go", "serves_properties": ["C20"], "kind_free_text": "real watcher loop / handle / filters + real TaskRunner, injected fsnotify event histories, fake 1 s poll; reference glob matcher for the selected paths"},
     ] + MANIFEST_TEXT.get("engines", []),
     "checks": [],
     "not_applicable": NOT_APPLICABLE,
